@@ -153,4 +153,14 @@ def _host_case(rep):
     return rep["clause"] in res["failed"].get(0, [])
 
 
-REPLAYERS = {"host_case": _host_case, "lifecycle": _lifecycle, "stdio_out": _stdio_out, "framing": _framing, "gate_script": _gate_script, "version_runs": _version_runs, "handshake": _handshake, "handshake_server": _handshake_server, "dispatch_case": _dispatch_case, "session_ops": _session_ops, "errorclass_case": _errorclass_case, "errorclass_sets": _errorclass_sets}
+def _http_seq(rep):
+    from harness.props import http
+    from harness.drivers import http_drv
+    t = http_drv.run_sequences([rep["seq"]])
+    print(json.dumps(t[0]))
+    res = validate.validate("HttpTransportTrace", t, http.CONSTS, work=os.path.join(tlc.WORK, "replay_http"), jobs=1)
+    print("failed:", res["failed_pairs"])
+    return any(c == rep["clause"] for c, _ in res["failed_pairs"].get(0, []))
+
+
+REPLAYERS = {"http_seq": _http_seq, "host_case": _host_case, "lifecycle": _lifecycle, "stdio_out": _stdio_out, "framing": _framing, "gate_script": _gate_script, "version_runs": _version_runs, "handshake": _handshake, "handshake_server": _handshake_server, "dispatch_case": _dispatch_case, "session_ops": _session_ops, "errorclass_case": _errorclass_case, "errorclass_sets": _errorclass_sets}
